@@ -63,6 +63,12 @@ class Mailbox:
     def S3B(self):
         pass  # pragma: no cover
 
+    # closing, but close() arrived while we were disconnected: the messages
+    # which are still queued get sent before the close
+    @m.state()
+    def S3A_unsent(self):
+        pass  # pragma: no cover
+
     # S4: closed. We no longer care whether we're connected or not
     # @m.state()
     # def S4A(self): pass
@@ -171,6 +177,14 @@ class Mailbox:
         self._RC.tx_close(self._mailbox, self._mood)
 
     @m.output()
+    def drain_and_RC_tx_close(self):
+        assert self._mood
+        if self._pending_outbound:
+            self._RC.tx_open(self._mailbox)
+            self._drain()
+        self._RC_tx_close()
+
+    @m.output()
     def dequeue(self, phase, body):
         self._pending_outbound.pop(phase, None)
 
@@ -209,13 +223,15 @@ class Mailbox:
 
     S2A.upon(connected, enter=S2B, outputs=[RC_tx_open, drain])
     S2A.upon(add_message, enter=S2A, outputs=[queue])
-    S2A.upon(close, enter=S3A, outputs=[record_mood])
+    S2A.upon(close, enter=S3A_unsent, outputs=[record_mood])
     S2B.upon(lost, enter=S2A, outputs=[])
     S2B.upon(add_message, enter=S2B, outputs=[queue, RC_tx_add])
     S2B.upon(rx_message_theirs, enter=S2B, outputs=[N_release_and_accept])
     S2B.upon(rx_message_ours, enter=S2B, outputs=[dequeue])
     S2B.upon(close, enter=S3B, outputs=[record_mood_and_RC_tx_close])
 
+    S3A_unsent.upon(connected, enter=S3B, outputs=[drain_and_RC_tx_close])
+    S3A_unsent.upon(add_message, enter=S3A_unsent, outputs=[])
     S3A.upon(connected, enter=S3B, outputs=[RC_tx_close])
     S3A.upon(add_message, enter=S3A, outputs=[])
     S3B.upon(lost, enter=S3A, outputs=[])
